@@ -46,7 +46,9 @@ impl ExternalFile {
         let entry_ct = reader.dword()?;
         reader.skip_reserved(8)?;
 
-        let mut results = Vec::with_capacity(entry_ct as usize);
+        // `entry_ct` is whatever the file claims; let the vector grow with
+        // the entries that are actually present.
+        let mut results = Vec::new();
         for _ in 0..entry_ct {
             let id = ExternalFileId::new(reader.dword()?);
             reader.skip_reserved(8)?;
